@@ -271,12 +271,12 @@ def EVal.eraseList : List EVal → List Val
   | v :: vs => v.erase :: EVal.eraseList vs
 end
 
-/-- A borrowed node: offset, length in bytes, alignment unit checked, native alignment of the element. -/
+/-- A borrowed node of an ε-copy result: offset into the input buffer, length in bytes, alignment
+    unit that was checked. -/
 structure Borrow where
   off : Nat
   len : Nat
   unit : Nat
-  align : Nat
   deriving Repr, DecidableEq
 
 mutual
@@ -285,9 +285,9 @@ def EVal.borrows : EVal → List Borrow
   | .seq vs => EVal.borrowsList vs
   | .variant _ fs => EVal.borrowsList fs
   | .record fs => EVal.borrowsList fs
-  | .bStr off b => [⟨off, b.length, 1, 1⟩]
-  | .bSlice off t vs => [⟨off, vs.length * t.sizeOf, t.maxSizeOf, t.alignOf⟩]
-  | .bRef off t _ => [⟨off, t.sizeOf, t.maxSizeOf, t.alignOf⟩]
+  | .bStr off b => [⟨off, b.length, 1⟩]
+  | .bSlice off t vs => [⟨off, vs.length * t.sizeOf, t.maxSizeOf⟩]
+  | .bRef off t _ => [⟨off, t.sizeOf, t.maxSizeOf⟩]
   | _ => []
 def EVal.borrowsList : List EVal → List Borrow
   | [] => []
